@@ -563,7 +563,8 @@ def run(R, replay=None):
               "(encoding and newline pathologies, NULs, deep nesting, long lines, lone surrogates) between two healthy files through "
               "main() with JSON output; directories of 12-120 files (below and above the progress-bar threshold, quiet and default "
               "verbosity) with one faulty file; runs with two faults of every pair of kinds in either order or with no healthy file at "
-              "all, rendered by every formatter; non-trivial = every case")
+              "all, rendered by every formatter; non-trivial = every case"
+              "; runs with two faults of every pair of kinds / no healthy file rendered by every formatter; unreadable standard input; files whose visit fails at several nesting depths alone and after each other")
     fault_cases(R, rng, R.tier)
     byte_cases(R, rng, R.tier)
     many_files(R, rng, R.tier)
